@@ -555,6 +555,16 @@ func (c *symCtx) cellField(cell *ssa.Alloc, fa *ssa.FieldAddr) *Sym {
 				}
 			case *ssa.Store:
 				if r.Addr == v {
+					// a composite literal is assembled field by field in a temporary and copied whole
+					// (`x := T{f: v}` for a captured x): the field holds what the temporary's field holds
+					if ld, ok := r.Val.(*ssa.UnOp); ok && ld.Op == token.MUL && !c.active[ld] {
+						if src, ok := ld.X.(*ssa.Alloc); ok && src != cell && forwardedStore(ld) == nil {
+							c.active[ld] = true
+							args = append(args, c.cellField(src, fa))
+							delete(c.active, ld)
+							continue
+						}
+					}
 					whole := c.sym(r.Val)
 					args = append(args, c.fieldOf(whole, fieldVar(fa), fa))
 				}
